@@ -364,8 +364,25 @@ def mechanism_call(spec):
     raise ValueError(mech)
 
 
+LAST_INPUT_MUTATION = [None]
+
+
 def run_mechanism(fn, recs, sizes, env):
     ds = make_dataset(recs, sizes)
+    dom0 = ds.domain
+    snap = (tuple(dom0.attrs), tuple(dom0.shape), dict(dom0.config), ds.df.values.copy(), list(ds.df.columns))
+    try:
+        return _run_mechanism(fn, ds, env)
+    finally:
+        bad = None
+        if (tuple(dom0.attrs), tuple(dom0.shape), dict(dom0.config)) != snap[:3]:
+            bad = 'the Domain object of the input dataset was modified: now %r / config %r' % (dom0, dom0.config)
+        elif ds.domain is not dom0 or list(ds.df.columns) != snap[4] or ds.df.shape != snap[3].shape or not np.array_equal(ds.df.values, snap[3]):
+            bad = 'the input dataset (frame or domain reference) was modified'
+        LAST_INPUT_MUTATION[0] = bad
+
+
+def _run_mechanism(fn, ds, env):
     with E.installed(env), capped_estimator(), M.quiet():
         try:
             out = fn(ds)
@@ -459,6 +476,7 @@ def run_base(spec, recs, sizes, prefix, seed, noise_alts):
     except MechanismRaised as ex:
         raised = str(ex)
     ctrl.base = BaseExec(ctrl, trace_of(env), out, raised)
+    ctrl.base.input_mutation = LAST_INPUT_MUTATION[0]
     return ctrl
 
 
